@@ -60,6 +60,7 @@ ObsOK(ev) ==
             ("disknumrecs" \in DOMAIN ev.rk[i].obs /\ ev.rk[i].r = 0 /\ ~indep') => ev.rk[i].obs.disknumrecs = disk')
     /\ Chk("diskdata", \A i \in 1..Len(ev.rk) :
             ("disk" \in DOMAIN ev.rk[i].obs /\ ev.rk[i].r = 0) =>
+                "error" \notin DOMAIN ev.rk[i].obs.disk /\
                 LET dd == ev.rk[i].obs.disk.vars[2].data IN
                 \A k \in 1..MaxRec : (2 * k <= Len(dd)) => RowMatch(rows'[k], dd, k))
 
